@@ -6,9 +6,10 @@ HARNESS_BINS = ["vh_reg"]
 
 def run(ctx, br):
     # adversarial prefixes dominate: duplicates xN, unknown ids, late frames, callers held between result and unregister
-    cov = c01.run(ctx, br, profiles=["wedge", "wedge", "mixed", "wedge", "timeouts"], prop="C06")
+    cov = c01.run(ctx, br, profiles=["wedge", "wedge", "mixed", "wedge", "timeouts"], prop="C06",
+                  nats_profiles=["wedge", "status", "wedge", "noresp", "mixed", "wedge", "timeouts"])
     cov["rule"] = ("as C01, weighted towards adversarial prefixes (several frames for one op id while its caller is held between "
-                   "receiving the result and unregistering, unknown op ids, late frames); after every schedule a FRESH request is "
-                   "issued on the same transport and must get its own response within 1 s; a reader that does not return from the "
+                   "receiving the result and unregistering, unknown op ids, late frames); (on NATS also status 503 messages, from the harness and from the server, and messages the handler must discard); "
+                   "after every schedule a FRESH request is issued on the same transport and must get its own response within 1 s; a reader that does not return from the "
                    "channel send within 1 s is reported as head-of-line blocking; " + cov["rule"])
     return cov
